@@ -448,7 +448,11 @@ impl wire::Decode for ZeroBytes {
     fn decode<R: std::io::Read + ?Sized>(reader: &mut R) -> Result<Self, wire::Error> {
         let zeroes = u16::decode(reader)?;
         for _ in 0..zeroes {
-            _ = u8::decode(reader)?;
+            // Padding is all zeroes. Anything else would decode to the same value
+            // as the all-zero padding, giving one message several encodings.
+            if u8::decode(reader)? != 0 {
+                return Err(wire::Error::UnexpectedBytes);
+            }
         }
         Ok(ZeroBytes::new(zeroes))
     }
